@@ -396,3 +396,26 @@ PROPS["C16"] = {
             thorough={"cases": 20000, "size": 200, "shards": 16}),
     ],
 }
+
+PROPS["C19"] = {
+    "level": "exploration",
+    "technique": "property-based generation of per-thread workloads executed under ThreadSanitizer and compared with single-threaded digests (differential)",
+    "rule": "cases = 2..8 generated workloads (encoder call sequences, decoder frame histories, TECMP frames for the static decoder, status "
+            "operation sequences, payload-builder sequences, codec round trips), each run 1..3 times by its own thread on its own objects "
+            "after a common start barrier, in a TSan build and in an ASan build; non-trivial when >= 2 threads execute the same library "
+            "component; distinct = distinct serialized cases",
+    "assumptions": COMMON_ASSUMPTIONS + ["the harness does not own the scheduler: schedules are sampled, not enumerated; ThreadSanitizer's happens-before "
+                                         "analysis reports an unsynchronised access to shared mutable state whenever both accesses execute in the run, "
+                                         "largely independent of the actual interleaving",
+                                         "libstdc++ and rapidcheck are not TSan-instrumented; all generation happens on the main thread before the threads start"],
+    "level_text": "Generated concurrent workloads on distinct objects: per-thread result digests must equal the single-threaded ones and "
+                  "ThreadSanitizer (halt_on_error) must report nothing. Weakest fit of the family: a race on a path no workload reaches, or "
+                  "one that is not a data race in TSan's sense, can be missed.",
+    "level_note": "Trusted: ThreadSanitizer. See DESIGN.md sec. 7 for the limits.",
+    "stages": [
+        pbt("tsan_workloads", "pbt_C19", variant="tsan", quick={"cases": 60, "size": 100, "shards": 4},
+            thorough={"cases": 1000, "size": 200, "shards": 16}),
+        pbt("asan_workloads", "pbt_C19", variant="asan", quick={"cases": 100, "size": 100, "shards": 2},
+            thorough={"cases": 1000, "size": 200, "shards": 8}),
+    ],
+}
